@@ -203,6 +203,39 @@ pub fn run_case<G: AffineRepr>(run: u64, case: &Case, st: &mut Stats) {
         st.sample(run, json!({"curve": case.st.curve.name(), "history": case.st.shape(), "missing_fault": case.missing, "handles": p.events.iter().take(12).collect::<Vec<_>>()}));
         return;
     }
+    // F15 inside a randomized closure: the closure propagates the error the
+    // way a gadget would; prove() must then return MissingAssignment
+    if case.full && case.missing {
+        let (_, _, _, padded) = shape_of(&case.st);
+        let bp = gens_with_history::<G>(&[padded + 8], 1);
+        let pc = pc_cached::<G>();
+        let sh = Rc::new(RefCell::new(Shared::new(Role::Prover)));
+        sh.borrow_mut().propagate_missing = true;
+        let mut t = Transcript::new(b"c16");
+        let mut ext = CountingRng::new(case.ext_seed, RngMode::Normal);
+        let r = catch(|| {
+            let mut p = Prover::new(&pc, &mut t);
+            drive_prover(&mut p, &case.st.ops, &sh);
+            p.prove(&mut ext, &bp).map(|_| ())
+        });
+        let s = sh.borrow();
+        st.steps += s.steps as u64;
+        let missing_in_block = case.st.ops.iter().any(|o| matches!(o, Op::Randomized(b) if b.iter().any(|x| matches!(x, Op::Alloc(None) | Op::AllocMul(None)))));
+        match r {
+            Err(m) => viol(st, "no-panic", format!("prover panicked: {}", m)),
+            Ok(res) => {
+                if let Some(d) = &s.diverged {
+                    viol(st, "prover-vs-model", d.clone());
+                } else if missing_in_block && res != Err(ark_bulletproofs::r1cs::R1CSError::MissingAssignment) {
+                    viol(st, "missing-assignment-error", format!("an assignment is absent inside a randomized closure (which returned the error), but prove() returned {:?}", res));
+                } else {
+                    st.probe("phase2-missing-assignment-surfaces-from-prove");
+                    st.distinct(&format!("p2missing|{}|{}", case.st.curve.name(), case.st.shape()));
+                }
+            }
+        }
+        return;
+    }
     // full session: phase 2 executes inside prove / verify
     let (_, _, _, padded) = shape_of(&case.st);
     let sc = SessionCase {
@@ -267,8 +300,8 @@ pub fn run_case<G: AffineRepr>(run: u64, case: &Case, st: &mut Stats) {
 pub fn case_for(seed: u64, _tier: Tier, run: u64) -> Case {
     let curve = CURVES[(run % 3) as usize];
     let mut rng = sub_rng(seed, "C16", run, "case");
-    let full = run % 16 == 0;
-    let missing = !full && run % 5 == 1;
+    let full = run % 16 == 0 || run % 80 == 11;
+    let missing = (!full && run % 5 == 1) || run % 80 == 11;
     let blocks = full || chance(&mut rng, 1, 3);
     let st = with_curve!(curve, G, gen_history::<<G as AffineRepr>::ScalarField>(&mut rng, curve, missing, blocks));
     Case {
